@@ -624,13 +624,14 @@ def handle (cfg : Cfg) (cache : Cache) (dst : Nat) (isResp : Bool) (q? : Option 
         | (t, .ok r) =>
           ⟨t, .answers r.recs r.rcodeOk, if r.cacheable then cache.store key r.recs else cache⟩
 
-/-- `HandleWithResponseWriter_` from its first line: a query (no response bit) with MORE THAN ONE
-question is refused with FORMERR before anything is routed, forwarded or cached (RFC 9619; routing, cache
-key, singleflight key and question check all look at `Question[0]` only).  `nq` = QDCOUNT, `q?` = the
+/-- `HandleWithResponseWriter_` from its first line: a query (no response bit) whose question count is NOT
+EXACTLY ONE (none — fix 222c712 — or more than one — fix 59279ab) is refused with FORMERR before anything is
+routed, forwarded or cached (RFC 9619; routing, cache key, singleflight key and question check all look at
+`Question[0]` only; without a question there is nothing the answer could be checked against).  `nq` = QDCOUNT, `q?` = the
 first question. -/
 def handleMsg (cfg : Cfg) (cache : Cache) (dst : Nat) (isResp : Bool) (nq : Nat) (q? : Option Question)
     (ans : Upstreams) : Outcome :=
-  if !isResp && nq > 1 then ⟨[], .refused, cache⟩ else handle cfg cache dst isResp q? ans
+  if !isResp && nq != 1 then ⟨[], .refused, cache⟩ else handle cfg cache dst isResp q? ans
 
 /-! ### optimistic cache: a stale entry is served and refreshed in the background -/
 
@@ -672,6 +673,6 @@ def handleOpt (cfg : Cfg) (cache : Cache) (stale : List CacheKey) (dst : Nat) (i
 
 def handleMsgOpt (cfg : Cfg) (cache : Cache) (stale : List CacheKey) (dst : Nat) (isResp : Bool) (nq : Nat)
     (q? : Option Question) (ans : Upstreams) : OutcomeO :=
-  if !isResp && nq > 1 then ⟨[], .refused, cache, stale⟩ else handleOpt cfg cache stale dst isResp q? ans
+  if !isResp && nq != 1 then ⟨[], .refused, cache, stale⟩ else handleOpt cfg cache stale dst isResp q? ans
 
 end DaeVerif.C07
